@@ -227,12 +227,61 @@ def rule_r3(repo):
                 want = (['info_configuration'] if info_only else []) + (['ignore_value_expectation'] if ignore else [])
                 if not r.ok or names != want:
                     rr.fail('Decoder.process:transformers', fi.where, 'info_only=%s, ignore_value_expectation=%s: transformers %s (expected %s)' % (info_only, ignore, names, want))
-    # configure_section applies the transformers to the configuration it uses
+    # configure_section applies the transformers, in order, each to the result of the one before, and builds the section from the
+    # final configuration (folded with two scripted transformers; how the chain is written - loop, reduce - does not matter)
     cs = repo.own_method('SectionConfigurer', 'configure_section')
-    t = norm(cs.node)
-    rr.instance('configure_section applies each transformer to the configuration')
-    if 'for configuration_transformer in configuration_transformers' not in t or 'config = configuration_transformer(config)' not in t:
-        rr.fail('SectionConfigurer.configure_section:transformers', cs.where, 'the configuration transformers are not applied as config = transformer(config)')
+    from sa.patheval import Native, UnknownMethod
+    from sa.rules.c04 import SectionModel
+
+    class Tr(Native):
+        def __init__(self2, name, log):
+            self2.name, self2.log = name, log
+
+        def __repr__(self2):
+            return 'transformer ' + self2.name
+
+        def call(self2, args, kwargs, interp, frame, node):
+            cfg = args[0]
+            self2.log.append((self2.name, cfg.get('__by') if isinstance(cfg, dict) else repr(cfg)))
+            out = dict(cfg)
+            out['__by'] = (cfg.get('__by') or ()) + (self2.name,)
+            if self2.name == 't2':
+                out['parameters'] = list(cfg['parameters'])[:-1]
+            return out
+    base_cfg = {'index': 3, 'description': 'd', 'parameters': [{'name': 'section_length', 'nbits': 24, 'type': 'uint'}, {'name': 'a', 'nbits': 8, 'type': 'uint'},
+                                                            {'name': 'b', 'nbits': 8, 'type': 'uint'}]}
+    log = []
+
+    class CI(SecInterp):
+        def on_call(self2, text, callee, args, kwargs, node, frame):
+            if text == 'self.get_configuration' or (isinstance(callee, FuncRef) and callee.fi.name == 'get_configuration'):
+                return dict(base_cfg)
+            if text == 'BufrSection':
+                return SectionModel([], {})
+            if isinstance(callee, UnknownMethod) and isinstance(callee.recv, SectionModel):
+                return Top('x')
+            return SecInterp.on_call(self2, text, callee, args, kwargs, node, frame)
+
+        def construct(self2, cname, args, kwargs, node, frame):
+            o = SecInterp.construct(self2, cname, args, kwargs, node, frame)
+            if cname == 'SectionParameter' and isinstance(o, Obj):
+                self2.event('parameter', o.fields.get('name'))
+            return o
+    it3 = CI(repo, 'SectionConfigurer')
+    res = it3.run_function(cs, lambda: {'self': Obj('SectionConfigurer', {}), 'bufr_message': Obj('BufrMessage', {'sections': []}), 'section_index': 3,
+                                        'configuration_transformers': (Tr('t1', log), Tr('t2', log))}, self_class='SectionConfigurer')
+    rr.instance('configure_section applies each transformer to the result of the one before and uses the final configuration')
+    oks = [r for r in res if r.ok]
+    if not oks:
+        rr.fail('SectionConfigurer.configure_section:transformers', cs.where, 'configure_section with two transformers: %s' % [r.describe() for r in res])
+    for r in oks:
+        params = [e[1] for e in r.events if e[0] == 'parameter']
+        n = len(oks)
+        calls = log[:2]
+        if calls != [('t1', None), ('t2', ('t1',))] or params != ['section_length', 'a']:
+            rr.fail('SectionConfigurer.configure_section:transformers', cs.where, 'with the transformers (t1, t2) configure_section calls %s and builds the parameters %s; expected '
+                    't1 on the stored configuration, t2 on the result of t1, and the section built from what t2 returns (section_length, a)' % (calls, params))
+        del log[:]
     rr.require_floor(12)
     return rr
 
